@@ -51,6 +51,18 @@ def compare_op(
         return out
     exp_o = [ref.get("outcome"), ref.get("exc")]
     obs_o = [ev.get("outcome"), ev.get("exc")]
+    if kind in ("single", "rerun") and ref.get("outcome") == "ok" and ev.get("outcome") in ("internal_error", "declared_error"):
+        # the reference judges every detector on its own: an operation that died inside detector D is
+        # consistent iff D alone dies the same way in the pristine interpreter
+        failed = ev.get("failed_det")
+        rerr = {d[0]: d[2] for d in ref.get("obs", {}).get("dets", []) if len(d) > 2 and d[1] == "ERR"}
+        if failed == "*" and rerr:
+            if ev.get("exc") in list(rerr.values()):
+                return out
+        elif failed in rerr and rerr[failed] == ev.get("exc"):
+            return out
+        out.append(mm("outcome", exp_o + [rerr.get(failed)], obs_o + [ev.get("raised_in"), failed]))
+        return out
     if exp_o != obs_o:
         out.append(mm("outcome", exp_o, obs_o + [ev.get("raised_in")]))
         return out
@@ -60,8 +72,8 @@ def compare_op(
     if kind in ("single", "rerun"):
         if eo.get("ctx") != ro.get("ctx"):
             out.append(mm("ctx", ro.get("ctx"), eo.get("ctx")))
-        rd = {n: d for n, d in ro.get("dets", [])}
-        for n, d in eo.get("dets", []):
+        rd = {d[0]: (d[1] if len(d) == 2 else ["ERR", d[2]]) for d in ro.get("dets", [])}
+        for n, d in [(x[0], x[1]) for x in eo.get("dets", [])]:
             if n in rd and rd[n] != d:
                 out.append(mm("det:" + n, rd[n], d))
         for j, c in enumerate(eo.get("ctx_after", [])):
